@@ -217,6 +217,9 @@ func runC18(res *Result, tier string, seed int64, replay string) {
 		pair{"bare-amp-href", wrap(`<mj-button href="http://x/?q=a&r=b">Go</mj-button>`), wrap(`<mj-button href="http://x/?q=a&amp;r=b">Go</mj-button>`)},
 		pair{"named-entity-copy", wrap(`<mj-text>a &copy; b</mj-text>`), wrap("<mj-text>a © b</mj-text>")},
 		pair{"named-entity-nbsp-button", wrap(`<mj-button href="u">a&nbsp;b</mj-button>`), wrap("<mj-button href=\"u\">a b</mj-button>")},
+		pair{"named-entity-behind-comment", wrap(`<!-- &copy; 2023 --><mj-text>x &copy; y</mj-text>`), wrap("<!-- &copy; 2023 --><mj-text>x © y</mj-text>")},
+		pair{"named-entity-behind-cdata-text", wrap(`<mj-text><![CDATA[write &nbsp; here]]></mj-text><mj-text>a&nbsp;b</mj-text>`), wrap("<mj-text><![CDATA[write &nbsp; here]]></mj-text><mj-text>a\u00a0b</mj-text>")},
+		pair{"named-entity-behind-comment-in-attribute", wrap(`<!-- &mdash; --><mj-image src="i.png" alt="a &mdash; b"/>`), wrap("<!-- &mdash; --><mj-image src=\"i.png\" alt=\"a — b\"/>")},
 		pair{"named-entity-mdash", wrap(`<mj-text>x &mdash; y &hellip;</mj-text>`), wrap("<mj-text>x — y …</mj-text>")},
 		pair{"raw-html-vs-cdata", wrap(`<mj-text>Hi <b>bold</b> &amp; <br> more</mj-text>`), wrap(`<mj-text><![CDATA[Hi <b>bold</b> &amp; <br> more]]></mj-text>`)},
 		pair{"raw-html-cdata-end", wrap(`<mj-text>a ]]&gt; b</mj-text>`), wrap(`<mj-text><![CDATA[a ]]&gt; b]]></mj-text>`)},
@@ -308,6 +311,8 @@ func runC18(res *Result, tier string, seed int64, replay string) {
 		r := NewRng(seed, fmt.Sprintf("c18/m/%d", i))
 		texts = append(texts, mutateBytes(r, texts[r.Intn(len(texts))]))
 	}
+	// the texts made of the pieces the passes look at (shared with C17), with the deterministic entity-behind-comment / CDATA texts
+	texts = append(texts, wrapTexts(seed, 150)...)
 	prepassCorrespondence(res, drv, texts)
 	_ = mjml.Render
 }
